@@ -3,10 +3,15 @@ use crate::ops::run_line;
 use dnssector::c_abi::*;
 use libc::c_char;
 use std::ffi::CStr;
+use std::sync::atomic::{AtomicUsize, Ordering};
 use std::sync::mpsc::{channel, Receiver, Sender};
 
+static LAST_HANDED: AtomicUsize = AtomicUsize::new(0);
+
 enum Cmd {
-    Fail(usize),
+    /// message id; whether the caller's error variable holds a stale pointer (the one most recently handed to
+    /// any thread) when the call is made: the argument is output-only, so what it held before must not matter
+    Fail(usize, bool),
     Read,
     Quit,
 }
@@ -34,11 +39,14 @@ fn worker(rx: Receiver<Cmd>, tx: Sender<String>) {
     let mut err: *const CErr = std::ptr::null();
     loop {
         match rx.recv() {
-            Ok(Cmd::Fail(id)) => {
+            Ok(Cmd::Fail(id, stale)) => {
                 let n = failing_input(id);
+                let last = LAST_HANDED.load(Ordering::SeqCst);
+                if stale && last != 0 { err = last as *const CErr; }
                 let mut raw = [0u8; 256];
                 let mut len: libc::size_t = 0;
                 let r = unsafe { (t.raw_name_from_str)(&mut raw, &mut len, &mut err, n.as_ptr() as *const c_char, n.len()) };
+                LAST_HANDED.store(err as usize, Ordering::SeqCst);
                 tx.send(format!("{}", r)).unwrap();
             }
             Ok(Cmd::Read) => {
@@ -69,11 +77,12 @@ pub fn run_errslots(words: &[&str]) -> String {
         rxs.push(rrx);
     }
     let mut out = vec![];
-    for st in &words[1..] {
+    LAST_HANDED.store(0, Ordering::SeqCst);
+    for (k, st) in words[1..].iter().enumerate() {
         let (tid, rest) = st.split_at(st.find(|c: char| !c.is_ascii_digit()).unwrap());
         let tid: usize = tid.parse().unwrap();
         if let Some(id) = rest.strip_prefix('f') {
-            txs[tid].send(Cmd::Fail(id.parse().unwrap())).unwrap();
+            txs[tid].send(Cmd::Fail(id.parse().unwrap(), k % 2 == 1)).unwrap();
             let r = rxs[tid].recv().unwrap_or("dead".into());
             out.push(format!("t{}f={}", tid, r));
         } else {
